@@ -5,18 +5,24 @@ import os, vlib
 def run(ctx):
     q = ctx.tier == "quick"
     ctx.rule = ("RateLimit.tla: one shared post-paid token bucket per direction, discrete clock, windows starting anywhere "
-                "(RateBound = burst + R x dt + one I/O chunk per connection; per-connection limiter and ignored wait violate it). "
-                "The module exports every (read-limit, write-limit in {0,4,8} MiB/s, 1-3 connections, upload/download, plain/tunnel) "
+                "(RateBound = burst + R x dt + one I/O chunk per connection; per-connection limiter, ignored wait and a wait that gives up violate it). "
+                "The module exports every (read-limit, write-limit in {0,4,8} MiB/s, 1-3 connections, upload/download, plain/tunnel) and a crowd of 64 connections on a 1 MiB/s listener (backlog seconds deep) "
                 "configuration; each moves 12 MiB through a real listener, is sampled downstream of the limiter and the samples are "
                 "validated by TLC (RateLimitTrace) against the limiter's own burst; durations are only bounded from below, the "
                 "unlimited direction from above by half of what the other limit would allow; digests must match. Non-trivial = all.")
     ctx.mc("RateLimit.tla", "MC_RateLimit.cfg")
+    for m in ("MC_RateLimit_PerConn.cfg", "MC_RateLimit_NoWait.cfg", "MC_RateLimit_MaxWait.cfg"):
+        ok, _, _, _ = ctx.mc("RateLimit.tla", m, expect_ok=False)
+        if ok:
+            raise vlib.Infra("RateLimit mutant %s not detected by the model" % m)
     binp = ctx.build()
     recs, g, d, _ = ctx.gen("RateLimit.tla", "GEN_RateLimit.cfg")
     cases = [r for r in recs if "c" in r]
     if q:
         # every limit pair at least once, both directions and kinds
-        cases = vlib.sample_list(ctx.rng, cases, 14)
+        crowd = [r for r in cases if r["c"]["conns"] > 3 and r["exp"]["limited"]]
+        cases = vlib.sample_list(ctx.rng, [r for r in cases if r["c"]["conns"] <= 3], 14)
+        cases += ([r for r in crowd if r["c"]["dir"] == "download"][:1] + [r for r in crowd if r["c"]["dir"] == "upload"][-1:])
     trace = os.path.join(ctx.work, "rate.ndjson")
     out = ctx.run_vh(binp, ["c20", "--arg", "trace=" + trace], cases=cases, timeout=3000)
     out, crashed = ctx.nocrash(out, "C20:crash")
